@@ -75,6 +75,51 @@ def gen_case(rng):
     return {"n": n, "x": x, "ops": ops, "tr": tr, "meas": meas}
 
 
+def gen_directed(rng, kind):
+    """Directed families the random generator reaches too rarely:
+    tail     - every trainable gate is followed by several mutually non-commuting gates (the reversed Hadamard test
+               un-computes exactly that tail), single expectation value;
+    deadwire - constant-angle gates precede the trainable ones, some of them on a wire that reaches no measurement, so the
+               i-th trainable parameter and the i-th tape parameter belong to different kinds of gate."""
+    x = [rng.randrange(1, 16) for _ in range(2)]
+    ops, tr = [], []
+
+    def train(name, wires, i):
+        g = rec(name, wires, [0])
+        c, b = rng.choice([1, -1, 2]), rng.choice([0, 3])
+        g["p"] = [(c * x[i] + b) % 32]
+        g["aff"] = (i, c, b)
+        tr.append(len(ops))
+        ops.append(g)
+
+    if kind == "tail":
+        n = 2
+        tail = [rec("CNOT", [1, 2]), rec("RY", [1], [rng.randrange(1, 16)]), rec("Hadamard", [2]), rec("CNOT", [2, 1]),
+                rec("RX", [2], [rng.randrange(1, 16)]), rec("S", [1]), rec("Hadamard", [1])]
+        train(rng.choice(TRAIN1), [1], 0)
+        ops.extend(rng.sample(tail, 3))
+        train(rng.choice(TRAIN1 + TRAIN2[:6]), [2, 1], 1) if rng.random() < 0.5 else train(rng.choice(TRAIN1), [2], 1)
+        if len(ops[-1]["w"]) == 2 and ops[-1]["g"] in TRAIN1:
+            ops[-1]["w"] = [2]
+        ops.extend(rng.sample(tail, 4))
+        meas = ("expval", [rng.randint(1, 3), rng.randint(1, 3)])
+    else:
+        n = 3
+        ops.append(rec("RX", [3], [rng.randrange(1, 16)]))
+        ops.append(rec("RY", [3], [rng.randrange(1, 16)]))
+        if rng.random() < 0.5:
+            ops.append(rec("RZ", [1], [rng.randrange(1, 16)]))
+        train(rng.choice(TRAIN1[:2]), [1], 0)
+        ops.append(rec("CNOT", [1, 2]))
+        ops.append(rec("RX", [3], [rng.randrange(1, 16)]))
+        train(rng.choice(TRAIN1[:2]), [2], 1)
+        train(rng.choice(["CRX", "IsingXX", "CRY"]), [1, 2], rng.randrange(2))
+        meas = (rng.choice(["expval", "var", "probs"]), [3, rng.randint(1, 3), 0])
+        if meas[0] == "probs":
+            meas = ("probs", [1, 2])
+    return {"n": n, "x": x, "ops": ops, "tr": tr, "meas": meas, "directed": kind}
+
+
 def tlc_ops(c):
     return [{k: v for k, v in g.items() if k != "aff"} for g in c["ops"]]
 
@@ -166,6 +211,8 @@ def run(tier, seed):
     rng = random.Random(3400 + seed)
     gs = deriv.selfcheck("C34", M)
     cases = [gen_case(rng) for _ in range(36 if tier == "quick" else 600)]
+    nd = 3 if tier == "quick" else 30
+    cases += [gen_directed(rng, "tail") for _ in range(nd)] + [gen_directed(rng, "deadwire") for _ in range(nd)]
     sts, stats = deriv.states("C34", [{"n": c["n"], "ops": tlc_ops(c), "tr": c["tr"]} for c in cases], M, order=1)
     viol, n_cmp, accepted, rejected, samples, rej_samples = [], 0, {}, {}, [], []
     nontriv = set()
@@ -181,6 +228,8 @@ def run(tier, seed):
             cols.append(np.asarray(col, dtype=float) * np.ones_like(np.asarray(parts[c["tr"][0]], dtype=float)))
         J = np.stack(cols, axis=-1)            # (..., m)
         cfgs = CONFIGS if ci % 4 == 0 or tier != "quick" else rng.sample(CONFIGS, 6)
+        if c.get("directed") and tier == "quick":
+            cfgs = [cf for cf in CONFIGS if cf[0] == "autograd" or (cf[0] == "jax" and cf[1] in ("parameter-shift", "adjoint"))]
         for (itf, method, goe, dvjp) in cfgs:
             tag = f"{itf}|{method}|goe={goe}|dvjp={dvjp}"
             if method == "adjoint" and c["meas"][0] not in ("expval", "hexp"):
@@ -214,7 +263,7 @@ def run(tier, seed):
         raise lib.MachineryError("negative control accepted")
     cov = {"states": stats["distinct"] + gs.distinct, "transitions": stats["generated"] + gs.generated,
            "traces_validated_against_impl": n_cmp, "evaluations": n_cmp, "distinct_nontrivial": len(nontriv),
-           "rule": "seeded circuits (1-3 wires, 2-7 gates, 1-3 arguments with shared/affine use); non-trivial = distinct circuits with a "
+           "rule": "seeded circuits (1-3 wires, 2-7 gates, 1-3 arguments with shared/affine use) plus directed families (non-commuting tails after each trainable gate; constant gates, some on an unmeasured wire, before the trainable ones); non-trivial = distinct circuits with a "
                    "non-zero exact Jacobian on which every accepting configuration agreed",
            "samples": samples, "configurations_accepting": accepted, "rejections": rejected, "rejection_samples": rej_samples, "generator_table_selfcheck_states": gs.distinct,
            "negative_controls_rejected": 1, "ring_level_M": M}
